@@ -625,6 +625,8 @@ _ENTRY_LABEL = {"mw": "msg-wire", "nw": "name-wire", "rw": "rdata-wire", "nt": "
 
 
 HANG_LIMIT = 8
+_TRACE = os.environ.get("C04_TRACE")  # development aid: per-case outcome log
+from ..core import jsonable as core_jsonable  # noqa: E402
 
 
 class ShardAbort(Exception):
@@ -634,6 +636,9 @@ class ShardAbort(Exception):
 def judge(col, case, base, kind):
     """Execute one case and book it."""
     label, probs = run_case(case)
+    if _TRACE:
+        with open("%s.%d" % (_TRACE, os.getpid()), "a") as f:
+            f.write("%s\t%s\n" % (label, sorted(core_jsonable(case).items())))
     entry = _ENTRY_LABEL[case["e"]]
     col.count("evaluations")
     col.count("cases:" + entry)
